@@ -21,6 +21,10 @@ GATE = ("steady_clock::now()", "pause_actions_until_")
 
 
 def run(ctx):
+    # locals / parameters the rules below refer to by name (a rename makes the analysis 'broken', never a violation)
+    ctx.anchor(ctx.fn1('Oomd::Engine::Ruleset::runOnceImpl'), 'run_actions')
+    ctx.anchor(ctx.fn1('Oomd::BaseKillPlugin::run'), 'ruleset', 'ret')
+    ctx.anchor(ctx.fn1('Oomd::Engine::Ruleset::pause_actions'), 'duration')
     P = ctx.prog
     impl = ctx.fn1("Oomd::Engine::Ruleset::runOnceImpl")
     chain = ctx.fn1("Oomd::Engine::Ruleset::run_action_chain")
